@@ -8,6 +8,12 @@ mod io_gen;
 mod io_run;
 mod json;
 mod model;
+mod ops;
+mod refmul;
+mod sched;
+mod sched_run;
+mod spool;
+mod tok;
 mod util;
 
 use json::J;
@@ -34,7 +40,7 @@ fn args_map(args: &[String]) -> HashMap<String, String> {
     m
 }
 
-fn geti(m: &HashMap<String, String>, k: &str, d: u64) -> u64 {
+pub fn geti(m: &HashMap<String, String>, k: &str, d: u64) -> u64 {
     m.get(k).and_then(|v| v.parse().ok()).unwrap_or(d)
 }
 
@@ -44,7 +50,7 @@ pub fn quiet_panics() {
     }
 }
 
-fn harness_error(msg: &str) -> ! {
+pub fn harness_error(msg: &str) -> ! {
     eprintln!("HARNESS-ERROR: {}", msg);
     std::process::exit(2)
 }
@@ -236,6 +242,7 @@ fn cmd_replay(m: &HashMap<String, String>) -> i32 {
             }
             Err(e) => harness_error(&e),
         },
+        "sched" => sched_run::replay(&path, &j, quiet),
         other => harness_error(&format!("unknown engine {:?} in {}", other, path)),
     }
 }
@@ -249,6 +256,7 @@ fn main() {
     let code = match args[0].as_str() {
         "io" => cmd_io(&m),
         "replay" => cmd_replay(&m),
+        "sched" => sched_run::cmd_sched(&m),
         other => harness_error(&format!("unknown command {}", other)),
     };
     std::process::exit(code)
